@@ -71,7 +71,6 @@ func init() { seqx.Register("C06", c06Spec) }
 
 func rxKey(p int, seq uint32) string { return fmt.Sprintf("%d-%d", p, seq) }
 
-
 func (c *c06) Enabled() []seqx.Event {
 	var ev []seqx.Event
 	for p := 0; p < 2; p++ {
